@@ -23,6 +23,7 @@ import (
 	"runtime/debug"
 	"sort"
 	"strings"
+	"time"
 
 	"github.com/syndtr/goleveldb/leveldb/cache"
 
@@ -769,7 +770,7 @@ func recordTable(res *vlib.Result, tc *TblCase, o tblOutcome) {
 	res.Eval(fmt.Sprintf("tbl/%s/%d/%v", tc.Variant, len(tc.Acts), tc.OneP), o.nontriv)
 	if len(o.fails) > 0 {
 		min := *tc
-		if len(tc.Acts) <= 3000 {
+		if res.NViolations() == 0 {
 			min = shrinkTable(*tc)
 		}
 		o2 := runTable(min, false)
@@ -784,19 +785,24 @@ func recordTable(res *vlib.Result, tc *TblCase, o tblOutcome) {
 // shrinkTable: delta debugging on the action list ("still fails" as the predicate; only suffixes and chunks
 // are removed, so the remaining actions keep their meaning).
 func shrinkTable(tc TblCase) TblCase {
-	failing := func(c TblCase) bool {
-		for i := 0; i < 2; i++ {
-			if len(runTable(c, false).fails) > 0 {
-				return true
-			}
-		}
-		return false
-	}
+	deadline := time.Now().Add(12 * time.Second)
+	failing := func(c TblCase) bool { return len(runTable(c, false).fails) > 0 }
 	cur := tc
+	// first the shortest failing prefix (bisection; "fails" is monotone in the prefix once a check has failed)
+	lo, hi := 0, len(cur.Acts)
+	for lo+1 < hi && time.Now().Before(deadline) {
+		mid := (lo + hi) / 2
+		if failing(TblCase{Variant: cur.Variant, OneP: cur.OneP, Acts: cur.Acts[:mid]}) {
+			hi = mid
+		} else {
+			lo = mid
+		}
+	}
+	cur.Acts = append([]TblAct{}, cur.Acts[:hi]...)
 	chunk := len(cur.Acts) / 2
-	for rounds := 0; rounds < 40 && chunk >= 1; rounds++ {
+	for rounds := 0; rounds < 40 && chunk >= 1 && time.Now().Before(deadline); rounds++ {
 		progress := false
-		for at := 0; at+chunk <= len(cur.Acts); {
+		for at := 0; at+chunk <= len(cur.Acts) && time.Now().Before(deadline); {
 			cand := TblCase{Variant: cur.Variant, OneP: cur.OneP}
 			cand.Acts = append(append([]TblAct{}, cur.Acts[:at]...), cur.Acts[at+chunk:]...)
 			if len(cand.Acts) > 0 && failing(cand) {
